@@ -84,3 +84,176 @@ Proof.
   induction es as [|e es IH]; intros c; cbn; [reflexivity|].
   rewrite IH, apply_chan_status; reflexivity.
 Qed.
+
+(* ---- actions never touch the identity of a channel ---- *)
+Definition identity_of (c : chan) :=
+  (c_self c, c_tid c, c_init c, c_resp c, c_basecid c, c_selector c, c_sender c, c_recipient c).
+
+Lemma add_log_identity m c : identity_of (add_log m c) = identity_of c.
+Proof. unfold add_log; destruct (c_stages c); reflexivity. Qed.
+
+Lemma run_act_identity a c act : identity_of (run_act a c act) = identity_of c.
+Proof.
+  destruct act as [f s|f b|f|f|f|f|l]; cbn.
+  - destruct f, s; reflexivity.
+  - destruct f, b; reflexivity.
+  - destruct f; reflexivity.
+  - destruct f; reflexivity.
+  - destruct (Z.gtb _ _); [destruct f|]; reflexivity.
+  - destruct f; reflexivity.
+  - destruct l; apply add_log_identity.
+Qed.
+
+Lemma run_acts_identity a l : forall c, identity_of (run_acts a c l) = identity_of c.
+Proof.
+  unfold run_acts; induction l as [|x l IH]; intros c; cbn; [reflexivity|].
+  rewrite IH; apply run_act_identity.
+Qed.
+
+Lemma apply_chan_identity c e : identity_of (apply_chan c e) = identity_of c.
+Proof.
+  unfold apply_chan, apply.
+  destruct (dest_of (fst e) (c_status c)) as [[s'| |]|]; cbn; try reflexivity;
+    try apply run_acts_identity.
+Qed.
+
+(* ---- projections of a record and their evolution under actions ---- *)
+(* accounting: byte totals and block indexes *)
+Definition acct : Type := (N * N * N * Z * Z * Z)%type.
+Definition acct_of (c : chan) : acct :=
+  (c_queued c, c_sent c, c_received c, c_qblocks c, c_sblocks c, c_rblocks c).
+
+Definition act_acct (a : evarg) (t : acct) (act : Act) : acct :=
+  let '(q, s, r, qb, sb, rb) := t in
+  match act with
+  | ASetU64 FQueued => (a_uint a, s, r, qb, sb, rb)
+  | ASetU64 FSent => (q, a_uint a, r, qb, sb, rb)
+  | ASetU64 FReceived => (q, s, a_uint a, qb, sb, rb)
+  | AAddU64 FQueued => (((q + a_uint a) mod two64)%N, s, r, qb, sb, rb)
+  | AAddU64 FSent => (q, ((s + a_uint a) mod two64)%N, r, qb, sb, rb)
+  | AAddU64 FReceived => (q, s, ((r + a_uint a) mod two64)%N, qb, sb, rb)
+  | AMaxI64 FQueuedBlocksTotal => (q, s, r, if Z.gtb (a_int a) qb then a_int a else qb, sb, rb)
+  | AMaxI64 FSentBlocksTotal => (q, s, r, qb, if Z.gtb (a_int a) sb then a_int a else sb, rb)
+  | AMaxI64 FReceivedBlocksTotal => (q, s, r, qb, sb, if Z.gtb (a_int a) rb then a_int a else rb)
+  | _ => t
+  end.
+
+Lemma add_log_acct m c : acct_of (add_log m c) = acct_of c.
+Proof. unfold add_log; destruct (c_stages c); reflexivity. Qed.
+
+Lemma run_act_acct a c act : acct_of (run_act a c act) = act_acct a (acct_of c) act.
+Proof.
+  destruct act as [f s|f b|f|f|f|f|l]; cbn.
+  - destruct f, s; reflexivity.
+  - destruct f, b; reflexivity.
+  - destruct f; reflexivity.
+  - destruct f; reflexivity.
+  - destruct f; cbn; destruct (Z.gtb _ _); reflexivity.
+  - destruct f; reflexivity.
+  - destruct l; apply add_log_acct.
+Qed.
+
+Lemma run_acts_acct a l : forall c, acct_of (run_acts a c l) = fold_left (act_acct a) l (acct_of c).
+Proof.
+  unfold run_acts; induction l as [|x l IH]; intros c; cbn [fold_left]; [reflexivity|].
+  rewrite IH, run_act_acct; reflexivity.
+Qed.
+
+(* pause flags, limit, finalization flag *)
+Definition ctl : Type := (bool * bool * bool * N)%type.
+Definition ctl_of (c : chan) : ctl := (c_ipaused c, c_rpaused c, c_reqfin c, c_limit c).
+
+Definition act_ctl (a : evarg) (t : ctl) (act : Act) : ctl :=
+  let '(ip, rp, rf, lim) := t in
+  let src b := match b with BLit x => x | BArg => a_bool a end in
+  match act with
+  | ASetBool FInitiatorPaused b => (src b, rp, rf, lim)
+  | ASetBool FResponderPaused b => (ip, src b, rf, lim)
+  | ASetBool FRequiresFinalization b => (ip, rp, src b, lim)
+  | ASetU64 FDataLimit => (ip, rp, rf, a_uint a)
+  | AAddU64 FDataLimit => (ip, rp, rf, ((lim + a_uint a) mod two64)%N)
+  | _ => t
+  end.
+
+Lemma add_log_ctl m c : ctl_of (add_log m c) = ctl_of c.
+Proof. unfold add_log; destruct (c_stages c); reflexivity. Qed.
+
+Lemma run_act_ctl a c act : ctl_of (run_act a c act) = act_ctl a (ctl_of c) act.
+Proof.
+  destruct act as [f s|f b|f|f|f|f|l]; cbn.
+  - destruct f, s; reflexivity.
+  - destruct f, b; reflexivity.
+  - destruct f; reflexivity.
+  - destruct f; reflexivity.
+  - destruct f; cbn; destruct (Z.gtb _ _); reflexivity.
+  - destruct f; reflexivity.
+  - destruct l; apply add_log_ctl.
+Qed.
+
+Lemma run_acts_ctl a l : forall c, ctl_of (run_acts a c l) = fold_left (act_ctl a) l (ctl_of c).
+Proof.
+  unfold run_acts; induction l as [|x l IH]; intros c; cbn [fold_left]; [reflexivity|].
+  rewrite IH, run_act_ctl; reflexivity.
+Qed.
+
+(* voucher and voucher-result logs *)
+Definition logs_of (c : chan) : list voucher * list voucher := (c_vouchers c, c_results c).
+
+Definition act_logs (a : evarg) (t : list voucher * list voucher) (act : Act) :=
+  match act with
+  | AAppend FVouchers => (fst t ++ [a_voucher a], snd t)
+  | AAppend FVoucherResults => (fst t, snd t ++ [a_voucher a])
+  | _ => t
+  end.
+
+Lemma add_log_logs m c : logs_of (add_log m c) = logs_of c.
+Proof. unfold add_log; destruct (c_stages c); reflexivity. Qed.
+
+Lemma run_act_logs a c act : logs_of (run_act a c act) = act_logs a (logs_of c) act.
+Proof.
+  destruct act as [f s|f b|f|f|f|f|l]; cbn.
+  - destruct f, s; reflexivity.
+  - destruct f, b; reflexivity.
+  - destruct f; reflexivity.
+  - destruct f; reflexivity.
+  - destruct f; cbn; destruct (Z.gtb _ _); reflexivity.
+  - destruct f; reflexivity.
+  - destruct l; apply add_log_logs.
+Qed.
+
+Lemma run_acts_logs a l : forall c, logs_of (run_acts a c l) = fold_left (act_logs a) l (logs_of c).
+Proof.
+  unfold run_acts; induction l as [|x l IH]; intros c; cbn [fold_left]; [reflexivity|].
+  rewrite IH, run_act_logs; reflexivity.
+Qed.
+
+(* the projections of apply_chan: the action result when the event is valid, else unchanged *)
+Definition valid_in (e : EventCode) (s : Status) : bool :=
+  match dest_of e s with Some _ => true | None => false end.
+
+Lemma apply_chan_proj {T} (proj : chan -> T) (f : evarg -> T -> Act -> T)
+      (Hacts : forall a l c, proj (run_acts a c l) = fold_left (f a) l (proj c))
+      (Hstatus : forall c s, proj (c <| c_status := s |>) = proj c) :
+  forall c e,
+    proj (apply_chan c e) =
+    if valid_in (fst e) (c_status c) then fold_left (f (snd e)) (acts_of (fst e)) (proj c) else proj c.
+Proof.
+  intros c e. unfold apply_chan, apply, valid_in.
+  destruct (dest_of (fst e) (c_status c)) as [[s'| |]|]; cbn; try reflexivity; try apply Hacts.
+  rewrite Hstatus. apply Hacts.
+Qed.
+
+Lemma apply_chan_acct c e :
+  acct_of (apply_chan c e) =
+  if valid_in (fst e) (c_status c) then fold_left (act_acct (snd e)) (acts_of (fst e)) (acct_of c) else acct_of c.
+Proof. apply (apply_chan_proj acct_of act_acct); [apply run_acts_acct | reflexivity]. Qed.
+
+Lemma apply_chan_ctl c e :
+  ctl_of (apply_chan c e) =
+  if valid_in (fst e) (c_status c) then fold_left (act_ctl (snd e)) (acts_of (fst e)) (ctl_of c) else ctl_of c.
+Proof. apply (apply_chan_proj ctl_of act_ctl); [apply run_acts_ctl | reflexivity]. Qed.
+
+Lemma apply_chan_logs c e :
+  logs_of (apply_chan c e) =
+  if valid_in (fst e) (c_status c) then fold_left (act_logs (snd e)) (acts_of (fst e)) (logs_of c) else logs_of c.
+Proof. apply (apply_chan_proj logs_of act_logs); [apply run_acts_logs | reflexivity]. Qed.
